@@ -1,0 +1,15 @@
+//go:build verif
+
+package core
+
+// VerifYield, when set by the verification harness, is called at named points
+// inside the table operations (while the calling client holds its lock). The
+// harness uses it to pause there, so that a lock that is dropped and re-taken
+// inside an operation is handed to a waiting goroutine with high probability.
+var VerifYield func(point string)
+
+func verifYield(point string) {
+	if f := VerifYield; f != nil {
+		f(point)
+	}
+}
